@@ -274,6 +274,10 @@ class ResolverMixin:  # pylint: disable=too-few-public-methods
                 new_obj.class_origin = obj.class_origin
                 for qualifier in new_obj.qualifiers.values():
                     qualifier.propagated = True
+                if isinstance(new_obj, CIMMethod):
+                    for param in new_obj.parameters.values():
+                        for qualifier in param.qualifiers.values():
+                            qualifier.propagated = True
                 new_objects[obj_name] = new_obj
 
     def _set_new_object(self, new_obj, inherited_obj, new_class, superclass,
